@@ -376,8 +376,8 @@ def install(w):
     def h_hasattr(ex, st, args, kw, line):
         x, name = args
         if isinstance(x, Obj):
-            d, _ = ex.world.mro_find(x.cls, name)
-            yield st, (d is not None or name in x.f)
+            d, owner_ = ex.world.mro_find(x.cls, name)
+            yield st, (owner_ is not None or name in x.f)
             return
         if is_sym(x) or isinstance(x, Fraction):
             yield st, hasattr(1 if sym.is_intlike(x) else 1.0, name)
